@@ -53,6 +53,8 @@ def _obj(d, out):
         elif is_objlist(v):
             for c in v:
                 _obj(c, out)
+        elif isinstance(v, (list, tuple)) and not v and _objlist_key(typ, k):
+            pass  # an empty list of child objects: nothing to write
         elif k == "config" and isinstance(v, dict):
             for a, b in v.items():
                 out.append(("config", a, b))
@@ -74,3 +76,13 @@ def _obj(d, out):
         else:
             out.append(("attr", k, v, typ))
     out.append(("close", typ))
+
+
+def _objlist_key(typ, k):
+    from . import vocab
+
+    try:
+        slot = vocab.slots(typ).get(k)
+    except Exception:
+        return False
+    return slot is not None and any(a.shape == "objlist" for a in slot.alts)
